@@ -138,6 +138,17 @@ class World(object):
     self.settings.__dict__.pop('MIN_TIMESTAMP_LAG', None)
     self.settings['MIN_TIMESTAMP_LAG'] = self.orig_lag
     self.reactor.running = True
+    if getattr(self, 'schemas_edited', False):
+      # an earlier run edited storage-schemas.conf (op 'reload'): a fresh daemon starts from the original file
+      import os as _os
+      with open(_os.path.join(self.ns.conf_dir, 'storage-schemas.conf'), 'w') as f_:
+        f_.write(self.schemas_text0)
+      from carbon.storage import loadStorageSchemas as _lss
+      writer.SCHEMAS = _lss()
+      ev_ = getattr(writer, 'schemaReloadRequested', None)
+      if ev_ is not None and hasattr(ev_, 'clear'):
+        ev_.clear()
+      self.schemas_edited = False
     del self.signals[:]
     self.clock[0] = 0
     self.cur_store = [None]
@@ -423,6 +434,24 @@ class World(object):
             h.self_prefix = self.settings.CARBON_METRIC_PREFIX + '.'
             state.client_manager.sendDatapoint('carbon.agents.self.m%d' % (vcount[0] % 2), (999900 + (vcount[0] // 2) % 3, float(vcount[0])))
             vcount[0] += 1
+        elif k == 'reload':
+          # somebody edits storage-schemas.conf while the daemon runs, and the 60-second reload tasks of the WriterService
+          # come round on the reactor thread (a LoopingCall survives whatever its function raises: the task just ends)
+          import os as _os
+          path = _os.path.join(self.ns.conf_dir, 'storage-schemas.conf')
+          if not hasattr(self, 'schemas_text0'):
+            self.schemas_text0 = open(path).read()
+          with open(path, 'w') as f_:
+            f_.write(op[1])
+          self.schemas_edited = True
+          h.reloads = getattr(h, 'reloads', 0) + 1
+          for task in (self.writer_service.storage_reload_task, self.writer_service.aggregation_reload_task):
+            try:
+              task.f(*task.a, **task.kw)
+            except S.Abort:
+              raise
+            except BaseException as e:
+              h.reload_failures = getattr(h, 'reload_failures', 0) + 1
         elif k == 'disconnect':   # a client goes away
           if len(protos) > 1:
             from twisted.internet.error import ConnectionDone
